@@ -12,6 +12,7 @@ import (
 	cose "github.com/veraison/go-cose"
 	"pgregory.net/rapid"
 
+	"verifharness/bridge"
 	"verifharness/gen"
 	rc "verifharness/refcbor"
 	"verifharness/refcose"
@@ -19,9 +20,10 @@ import (
 )
 
 type c15Case struct {
-	Wire rc.Hex         `json:"wire"`
-	Cell string         `json:"cell,omitempty"`
-	Muts []gen.Mutation `json:"mutations,omitempty"`
+	Prior rc.Hex         `json:"prior,omitempty"` // decoded into the same Key variable first (a re-used variable)
+	Wire  rc.Hex         `json:"wire"`
+	Cell  string         `json:"cell,omitempty"`
+	Muts  []gen.Mutation `json:"mutations,omitempty"`
 }
 
 func ec2CurveAlg(crv int64) (elliptic.Curve, int64, int) {
@@ -148,9 +150,22 @@ func labelOK(k *rc.Node) bool {
 // re-encoding, and yields signers / verifiers only within its restrictions.
 func checkC15(c c15Case) error {
 	var k cose.Key
+	if c.Prior != nil {
+		_ = k.UnmarshalCBOR(append([]byte{}, c.Prior...))
+		stats.Class("decoded-into-used-variable")
+	}
 	if err := k.UnmarshalCBOR(append([]byte{}, c.Wire...)); err != nil {
 		stats.Class("refused")
 		return nil
+	}
+	if c.Prior != nil {
+		var fresh cose.Key
+		if err := fresh.UnmarshalCBOR(append([]byte{}, c.Wire...)); err != nil {
+			return finding("history-dependent", "a key is accepted into a previously used Key variable but refused into a fresh one: %v\nprior=%x\nwire=%x", err, []byte(c.Prior), []byte(c.Wire))
+		}
+		if a, b := bridge.DumpValue(k), bridge.DumpValue(fresh); a != b {
+			return finding("history-dependent", "decoding a key into a previously used Key variable differs from decoding it into a fresh one\nused =%s\nfresh=%s\nprior=%x\nwire=%x", a, b, []byte(c.Prior), []byte(c.Wire))
+		}
 	}
 	n, perr := rc.Parse(c.Wire)
 	if perr != nil {
@@ -545,9 +560,19 @@ func forEachKeyGridCell(sh, nsh int, f func(cell string, wire []byte)) int {
 func TestC15_Grid(t *testing.T) {
 	begin(t, "C15", "grid")
 	sh, nsh := gridShard()
+	// every fifth cell is decoded into a variable that held a private P-256 key (with kid, key_ops, extra parameter) before
+	x0, y0, d0 := c15Coords(1)
+	prior := rc.Encode(rc.Map(rc.E(rc.Int(1), rc.Int(2)), rc.E(rc.Int(-1), rc.Int(1)), rc.E(rc.Int(-2), rc.Bytes(x0)), rc.E(rc.Int(-3), rc.Bytes(y0)),
+		rc.E(rc.Int(-4), rc.Bytes(d0)), rc.E(rc.Int(2), rc.Bytes([]byte("prior"))), rc.E(rc.Int(4), rc.Array(rc.Int(1), rc.Int(2))), rc.E(rc.Text("note"), rc.Int(7))), nil)
+	i := 0
 	cnt := forEachKeyGridCell(sh, nsh, func(cell string, wire []byte) {
 		stats.Eval()
-		judge(t, "c15", c15Case{Wire: wire, Cell: cell}, checkC15)
+		i++
+		c := c15Case{Wire: wire, Cell: cell}
+		if i%5 == 0 {
+			c.Prior = prior
+		}
+		judge(t, "c15", c, checkC15)
 	})
 	stats.ExhaustivePart("kty x crv x alg x key_ops x len(x) x len(y) x len(d)", cnt/nsh)
 }
@@ -558,6 +583,9 @@ func TestC15_Mutants(t *testing.T) {
 	prop(t, func(rt *rapid.T) {
 		seed := genKeySeed(rt)
 		c := c15Case{Wire: seed}
+		if rapid.IntRange(0, 2).Draw(rt, "used-variable") == 0 {
+			c.Prior = genKeySeed(rt)
+		}
 		n := rapid.SampledFrom([]int{0, 1, 1, 1, 2, 2, 3}).Draw(rt, "nfaults")
 		if n > 0 {
 			c.Wire, c.Muts = gen.MutateWire(rt, seed, n, gen.MutOpts{Key: true})
